@@ -952,6 +952,8 @@ def json_decode(data_type, serialized_obj, caller_permissions=None,
         deserialized_obj = json.loads(serialized_obj)
     except ValueError:
         raise bv.ValidationError('could not decode input as JSON')
+    except RecursionError:
+        raise bv.ValidationError('input is nested too deeply')
     else:
         return json_compat_obj_decode(
             data_type, deserialized_obj, caller_permissions=caller_permissions,
@@ -984,8 +986,12 @@ def json_compat_obj_decode(data_type, obj, caller_permissions=None,
         return decoder.make_stone_friendly(
             data_type, obj, True)
     else:
-        ret = decoder.json_compat_obj_decode_helper(
-            data_type, obj)
+        try:
+            ret = decoder.json_compat_obj_decode_helper(
+                data_type, obj)
+        except RecursionError:
+            # The decoder recurses once per nesting level of the document.
+            raise bv.ValidationError('input is nested too deeply')
         if isinstance(data_type, (bv.List, bv.Map, bv.Nullable)):
             # Items of a container are validated when it is assigned to a
             # struct field or union member; a top-level one is not assigned.
